@@ -322,6 +322,8 @@ func classifyErr(err error, r *Run) {
 		msg = msg[:i] // cut the stack trace of a recovered panic
 	}
 	r.Err = msg
+	// the text a client would be sent: nothing of a plain error or of the cause wrapped in a safe one
+	r.Leak = strings.Contains(graphql.SanitizeError(err), "secret-")
 	r.EKind = "other"
 	if m := keyRe.FindStringSubmatch(msg); m != nil {
 		r.EKey = m[2]
@@ -496,7 +498,7 @@ func Main(args []string) error {
 	} else {
 		for i := 0; i < *n; i++ {
 			g := &gen{r: r, dirs: *dirs, defs: map[string]*SelSet{}, defOn: map[string]string{}}
-			asts = append(asts, g.selset("Query", *depth))
+			asts = append(asts, g.rootset("Query", *depth))
 			gens = append(gens, g)
 		}
 	}
